@@ -4,6 +4,7 @@ package main
 // (DESIGN.md 3.5 "Calls", "Frames").
 
 import (
+	"os"
 	"fmt"
 	"go/token"
 	"go/types"
@@ -291,7 +292,7 @@ func (x *Exec) callFunc(fr *Frame, st *State, callee *ssa.Function, bindings []V
 		} else {
 			x.note("call to %s not inlined (recursive, too large or with uncontracted loops): its results are unconstrained and the heap components it may write are havocked", key)
 			for _, m := range mods {
-				x.havocKeyCall(st, m.key, m.t)
+				x.havocModTarget(st, m)
 			}
 			na := x.s.declare("alloc", "Int")
 			x.assume("true", "(>= "+na+" "+st.alloc+")")
@@ -496,7 +497,7 @@ func (x *Exec) callContract(fr *Frame, st *State, c *Contract, callee *ssa.Funct
 			x.havocAll(st, "contract of "+c.Key+" has no assigns clause and its body has unknown effects")
 		} else {
 			for _, m := range mods {
-				x.havocKeyCall(st, m.key, m.t)
+				x.havocModTarget(st, m)
 			}
 		}
 	} else {
@@ -569,6 +570,87 @@ type modTarget struct {
 	// targeted havoc: root value defined outside the loop, static field path
 	root ssa.Value
 	path []int
+	// fields: for a struct key (H:T), the top-level fields that may be written; nil means
+	// the whole object (unknown which fields)
+	fields map[int]bool
+}
+
+// mergeMod records that key may be written; field >= 0 restricts the write to one
+// top-level field of a struct object, field < 0 means the whole object.
+func mergeMod(acc map[string]modTarget, key string, t types.Type, field int) {
+	m, ok := acc[key]
+	if !ok {
+		m = modTarget{key: key, t: t}
+		if field >= 0 {
+			m.fields = map[int]bool{field: true}
+		}
+		acc[key] = m
+		return
+	}
+	if m.fields == nil {
+		return // already whole
+	}
+	if field < 0 {
+		m.fields = nil
+	} else {
+		m.fields[field] = true
+	}
+	acc[key] = m
+}
+
+// mergeModTarget merges a callee's mod target (with its field set) into acc.
+func mergeModTarget(acc map[string]modTarget, m modTarget) {
+	if m.fields == nil {
+		mergeMod(acc, m.key, m.t, -1)
+		return
+	}
+	for f := range m.fields {
+		mergeMod(acc, m.key, m.t, f)
+	}
+}
+
+// topField: for a store address that is a field path into a struct object, the index of
+// the outermost field (the field of the root object); -1 when the whole object is written.
+func topField(addr ssa.Value) int {
+	switch a := addr.(type) {
+	case *ssa.FieldAddr:
+		if f := topField(a.X); f >= 0 {
+			return f
+		}
+		return a.Field
+	case *ssa.IndexAddr:
+		if _, ok := a.X.Type().Underlying().(*types.Pointer); ok {
+			return topField(a.X)
+		}
+	}
+	return -1
+}
+
+// restoreUnwrittenFields: after havocking a struct key because of a callee that writes
+// only some top-level fields, every other field of every object keeps its value.
+func (x *Exec) restoreUnwrittenFields(st *State, m modTarget, old string) {
+	if m.fields == nil || !strings.HasPrefix(m.key, "H:") {
+		return
+	}
+	stT, ok := m.t.Underlying().(*types.Struct)
+	if !ok {
+		return
+	}
+	nw := st.heap[m.key]
+	for j := 0; j < stT.NumFields(); j++ {
+		if m.fields[j] {
+			continue
+		}
+		acc := x.s.accessor(m.t, j)
+		x.assume("true", fmt.Sprintf("(forall ((fr! Int)) (! (= (%s (select %s fr!)) (%s (select %s fr!))) :pattern ((select %s fr!))))", acc, nw, acc, old, nw))
+	}
+}
+
+// havocModTarget havocs one callee mod target, keeping the fields it cannot write.
+func (x *Exec) havocModTarget(st *State, m modTarget) {
+	old := x.heapGet(st, m.key, m.t)
+	x.havocKeyCall(st, m.key, m.t)
+	x.restoreUnwrittenFields(st, m, old)
 }
 
 // funcMods returns the heap keys a function (and its static callees) may write.
@@ -592,7 +674,7 @@ func (x *Exec) collectMods(fn *ssa.Function, blocks map[*ssa.BasicBlock]bool, se
 	}
 	x.prog.ensureBuilt(fn)
 	all := false
-	add := func(key string, t types.Type) { acc[key] = modTarget{key: key, t: t} }
+	add := func(key string, t types.Type) { mergeMod(acc, key, t, -1) }
 	for _, b := range fn.Blocks {
 		if blocks != nil && !blocks[b] {
 			continue
@@ -604,7 +686,7 @@ func (x *Exec) collectMods(fn *ssa.Function, blocks map[*ssa.BasicBlock]bool, se
 				if local && blocks == nil {
 					continue // store to an object allocated by this very call
 				}
-				add(k, t)
+				mergeMod(acc, k, t, topField(i.Addr))
 			case *ssa.MapUpdate:
 				mt := i.Map.Type().Underlying().(*types.Map)
 				add(heapKeyMapP(mt), mt)
@@ -653,6 +735,9 @@ func (x *Exec) collectMods(fn *ssa.Function, blocks map[*ssa.BasicBlock]bool, se
 					if cc.Method.Name() == "Error" || (cc.Method.Pkg() != nil && cc.Method.Pkg().Path() == "context") {
 						continue
 					}
+					if os.Getenv("WKV_DEBUG_MODS") != "" {
+						fmt.Fprintf(os.Stderr, "mods: unknown effects: interface call %s in %s\n", cc.Method.FullName(), funcKey(fn))
+					}
 					all = true
 					continue
 				}
@@ -685,6 +770,12 @@ func (x *Exec) collectMods(fn *ssa.Function, blocks map[*ssa.BasicBlock]bool, se
 						cf = c2.Fn.(*ssa.Function)
 					}
 					if cf == nil {
+						if _, ok := x.pureFieldFunc(cc); ok {
+							continue
+						}
+						if os.Getenv("WKV_DEBUG_MODS") != "" {
+							fmt.Fprintf(os.Stderr, "mods: unknown effects: dynamic call in %s\n", funcKey(fn))
+						}
 						all = true
 						continue
 					}
@@ -694,7 +785,7 @@ func (x *Exec) collectMods(fn *ssa.Function, blocks map[*ssa.BasicBlock]bool, se
 					}
 					if ms, ok := x.libMods(key, cc); ok {
 						for _, m := range ms {
-							add(m.key, m.t)
+							mergeModTarget(acc, m)
 						}
 						continue
 					}
@@ -706,7 +797,7 @@ func (x *Exec) collectMods(fn *ssa.Function, blocks map[*ssa.BasicBlock]bool, se
 								all = true
 							}
 							for _, m := range ms {
-								add(m.key, m.t)
+								mergeModTarget(acc, m)
 							}
 						}
 						continue
@@ -714,11 +805,17 @@ func (x *Exec) collectMods(fn *ssa.Function, blocks map[*ssa.BasicBlock]bool, se
 					x.prog.ensureBuilt(cf)
 					if cf.Blocks == nil || !x.prog.inRepo(pkgPathOfKey(cf, x.prog)) {
 						if !x.prog.knownPure(key) {
+							if os.Getenv("WKV_DEBUG_MODS") != "" {
+								fmt.Fprintf(os.Stderr, "mods: unknown effects: external %s in %s\n", key, funcKey(fn))
+							}
 							all = true
 						}
 						continue
 					}
 					if depth > 8 {
+						if os.Getenv("WKV_DEBUG_MODS") != "" {
+							fmt.Fprintf(os.Stderr, "mods: unknown effects: depth in %s\n", funcKey(fn))
+						}
 						all = true
 						continue
 					}
